@@ -91,10 +91,12 @@ func (w *Writer) Rotate(fs storage.FileSystem) *Writer {
 	nextLog.latestSeqNum = w.latestSeqNum
 
 	// Include all data from previous buffers
+	// The carried segments keep their latest sequence numbers: Truncate on the
+	// next writer must only drop them once their entries have reached SSTs.
 	for i, b := range w.sealedBuffers {
-		nextLog.sealedBuffers[i] = &bufferSegment{buf: b.buf}
+		nextLog.sealedBuffers[i] = &bufferSegment{buf: b.buf, latestSeqNum: b.latestSeqNum}
 	}
-	nextLog.sealedBuffers[len(w.sealedBuffers)] = &bufferSegment{buf: w.activeBuffer.buf}
+	nextLog.sealedBuffers[len(w.sealedBuffers)] = &bufferSegment{buf: w.activeBuffer.buf, latestSeqNum: w.latestSeqNum}
 
 	// And initialize a new active buffer
 	nextLog.activeBuffer = &bufferSegment{}
